@@ -45,20 +45,41 @@ func Bin() string {
 	return b
 }
 
-// FreePort asks the kernel for a free TCP port (> 1024).
+// FreePort returns one free port (see FreePorts).
 func FreePort() (int, error) {
-	for i := 0; i < 50; i++ {
-		l, err := net.Listen("tcp", "127.0.0.1:0")
-		if err != nil {
-			return 0, err
-		}
-		p := l.Addr().(*net.TCPAddr).Port
-		l.Close()
-		if p > 1024 && p < 65535 {
-			return p, nil
-		}
+	ps, err := FreePorts(1)
+	if err != nil {
+		return 0, err
 	}
-	return 0, errors.New("no free port")
+	return ps[0], nil
+}
+
+// FreePorts returns n distinct free ports. Ports come from a block outside the kernel's ephemeral
+// range that is private to this process (chosen from shard number and pid), so that a port stays
+// available for a node that is killed and restarted later: nothing else binds it in between (an
+// ephemeral port could be handed to any other connection or process in the gap).
+var portMu sync.Mutex
+var portNext int
+
+func FreePorts(n int) ([]int, error) {
+	portMu.Lock()
+	defer portMu.Unlock()
+	base := 11000 + (kit.Shard()%16)*1000 + (os.Getpid()%10)*100
+	var ports []int
+	for tries := 0; len(ports) < n && tries < 300; tries++ {
+		p := base + portNext%100
+		portNext++
+		l, err := net.Listen("tcp", fmt.Sprintf("127.0.0.1:%d", p))
+		if err != nil {
+			continue
+		}
+		l.Close()
+		ports = append(ports, p)
+	}
+	if len(ports) < n {
+		return nil, errors.New("no free ports in this process's block")
+	}
+	return ports, nil
 }
 
 var seq int
